@@ -12,7 +12,7 @@ pub fn prop() -> Prop {
     Prop {
         id: "C01",
         level: "model_checking",
-        rule: "streams of <=2 values over the 75-value universe U1 and <=3 (thorough <=4) over a 12-value core, every legal separator (whitespace menu or touching), spelling deviations k=0,1 (thorough 2) per value from the whitespace/escape/number menus; non-trivial = >=2 values, or a non-default spelling, or touching tokens; cases are distinct by construction",
+        rule: "streams of <=2 values over the 75-value universe U1 and <=3 (thorough <=6) over a 12-value core, every legal separator (whitespace menu or touching; 5 kinds for triples, 3 for 4- and 5-streams, 2 for 6-streams), spelling deviations k=0,1 (thorough <=3, and 4 on the core) per value from the whitespace/escape/number menus; size ladders to 8193 bytes/members/values; a decimal grid of 36 mantissas (thorough ~1150: every 1..3-digit mantissa and the neighbours of 2^24..2^64 and 10^15..10^19) x every exponent -345..310 x 2 spellings; non-trivial = >=2 values, or a non-default spelling, or touching tokens; cases are distinct by construction",
         explanation: "bounded-exhaustive enumeration of conforming serialisations; jawk (no options) is run on each and stdout is read back with an independent strict RFC 8259 reader and compared value by value with the reference parse of the input",
         assumptions,
         guards: vec!["decimal-grid", "size-thresholds", "touching-tokens", "upper-case-exponent", "escape-variant", "multi-value", "depth-64"],
@@ -214,7 +214,7 @@ const TRAILS: [&str; 3] = ["", "\n", " "];
 fn run(ctx: &mut Ctx) {
     let u1 = spell::universe1();
     let core = spell::core12();
-    let kmax_all = ctx.tier.pick(1, 2);
+    let kmax_all = ctx.tier.pick(1, 3);
 
     // level A: single values, k deviations, every lead/trail
     for v in &u1 {
@@ -305,9 +305,9 @@ fn run(ctx: &mut Ctx) {
 
     // level D: triples (thorough: also 4-streams) over the core, every separator combination
     let cdef: Vec<String> = core.iter().map(|v| template(v).default_text()).collect();
-    let maxlen = ctx.tier.pick(3, 4);
+    let maxlen = ctx.tier.pick(3, 6);
     for len in 3..=maxlen {
-        let seps: &[&str] = if len == 3 { &SEPS[..5] } else { &SEPS[..3] };
+        let seps: &[&str] = if len == 3 { &SEPS[..5] } else if len <= 5 { &SEPS[..3] } else { &SEPS[..2] };
         let mut todo: Vec<Vec<usize>> = Vec::new();
         crate::explore::seqs_exact(core.len(), len, |idx| todo.push(idx.to_vec()));
         for idx in todo {
@@ -334,7 +334,7 @@ fn run(ctx: &mut Ctx) {
                 return;
             }
         }
-        ctx.level_done(if len == 3 { "D:triples-over-core" } else { "D:4-streams-over-core" });
+        ctx.level_done(&format!("D:{len}-streams-over-core"));
     }
 
     // level E: k=2 deviations on the core (quick), nesting depth 64, long stream
@@ -354,6 +354,7 @@ fn run(ctx: &mut Ctx) {
             let t = template(v);
             let mut texts = Vec::new();
             t.deviations(3, |s| texts.push(s));
+            t.deviations(4, |s| texts.push(s));
             for s in texts {
                 if ctx.mine() {
                     check(ctx, s, &[v], true);
@@ -470,7 +471,24 @@ fn run(ctx: &mut Ctx) {
         "7205759403792794", "1152921504606847", "95022394968265", "1238019611496455", "99999999999999999", "18014398509481985", "123456789012345678", "9223372036854775807",
         "9223372036854775809", "18446744073709551615", "1844674407370955161", "5764607523034234881",
     ];
-    for (mi, m) in MANTISSAS.iter().enumerate() {
+    let mut mantissas: Vec<String> = MANTISSAS.iter().map(|m| m.to_string()).collect();
+    if ctx.tier == Tier::Thorough {
+        // every mantissa of 1..3 digits, and the neighbours of the powers of two and ten that sit on rounding boundaries
+        mantissas.extend((1..1000u32).filter(|m| m % 10 != 0).map(|m| m.to_string()));
+        for k in 24..=64u32 {
+            let p = 1u128 << k;
+            mantissas.extend([p - 1, p + 1, p + (p >> 1) / (1 << 20).max(1) + 1].iter().map(|x| x.to_string()));
+        }
+        for k in 15..=19u32 {
+            let p = 10u128.pow(k);
+            mantissas.extend([p - 1, p + 1, 5 * p / 10 + 1].iter().map(|x| x.to_string()));
+        }
+        mantissas.sort();
+        mantissas.dedup();
+    }
+    let n_mantissas = mantissas.len();
+    for (mi, m) in mantissas.iter().enumerate() {
+        let m = m.as_str();
         if !ctx.mine() {
             continue;
         }
@@ -499,5 +517,5 @@ fn run(ctx: &mut Ctx) {
         }
         flush(ctx, &mut batch);
     }
-    ctx.level_done("G:decimal-grid(36-mantissas-x-every-exponent--345..310-x-2-spellings)");
+    ctx.level_done(&format!("G:decimal-grid({n_mantissas}-mantissas-x-every-exponent--345..310-x-2-spellings)"));
 }
